@@ -55,6 +55,8 @@ ASSUMPTIONS = ['tile coordinates and levels are non-negative',
                'all addresses of one cache use the same dimension keys (lower case, distinct); values are arbitrary text',
                'quadkey layout: x, y < 2^z and no dimensions; arcgis layout: no dimensions (finding F4 otherwise)',
                'sqlite / compact back-ends: no dimensions (the configuration loader refuses dimension layers there)',
+               'compact back-ends: x, y < 2^31 (the v1 bundle header stores the bundle origin in 32 bit fields and '
+               'struct.pack refuses larger values; the key-level model has no such limit)',
                'every operation is given fresh Tile objects; no concurrent writers (C06/C07/C08 cover those)',
                'temporary names (location + .tmp-<random>) of write_atomic and of the link store are unused names']
 EXPLANATION = ('refinement to the abstract map proved per back-end model for all histories; generated path / slot / '
@@ -449,7 +451,7 @@ IMPORTS = 'Gen_path Gen_compact Gen_sqlbatch CacheMap FileCache SqlCache CacheBa
 # ----------------------------------------------------------------------------- generators
 
 COORD_EDGE = [0, 1, 2, 3, 126, 127, 128, 129, 255, 256, 999, 1000, 1001, 1999, 2000, 9999, 10000, 10001, 19999, 20000,
-              65535, 65536, 999999, 1000000, 1000001, 1001000, 1999999, 2000000]
+              65535, 65536, 999999, 1000000, 1000001, 1001000, 1999999, 2000000, 9999999, 10000000, 10000001, 11000000]
 LEVELS = [0, 1, 2, 3, 4, 9, 10, 11, 12, 19, 20, 21]
 DIM_VALUES = ['a', 'b', 'A', 'a/b', 'a_b', 'a%2Fb', 'a\\b', '..', '../x', '%', '%25', '2020-08-25T00:00:00Z',
               '2020-08-25T00:00:01Z', 'default', 'x-y', 'x', ' ', 'a b']
@@ -463,7 +465,8 @@ def collide_variants(rng, layout_or_kind, x, y, z):
          (x + 128, y, z), (x, y + 128, z), (x % 128, y % 128, z), (x + 128, y + 128, z), (x * 1000, y, z),
          (x // 1000, y, z), (z, y, x) if x < 30 else (x, y, z), (x, z, y) if y < 30 else (x, y, z),
          (x ^ 1, y, z), (x, y ^ 1, z), (x ^ 128, y, z), (x + 65536, y, z), (x, y + 65536, z),
-         (x + 100, y, z), (x + 100000, y, z), (x, y + 10000, z), (x + 2000, y, z), (x + 20000, y, z), (x, y + 100000, z)]
+         (x + 100, y, z), (x + 100000, y, z), (x, y + 10000, z), (x + 2000, y, z), (x + 20000, y, z), (x, y + 100000, z),
+         (x + 10000000, y, z), (x, y + 1000000, z), (x, y + 10000000, z), (x + 100000000, y, z)]
     return v
 
 
@@ -497,6 +500,9 @@ def gen_pool(rng, cfg, size, valid=True):
             c = (c[0], c[1], c[2] % 4)
         if layout == 'quadkey' and valid:
             c = quad_fix(c)
+        if kind in COMPACT_KINDS:
+            # the v1 bundle header keeps the bundle origin (+127) in unsigned 32 bit fields: struct.error beyond
+            c = (c[0] % (1 << 31), c[1] % (1 << 31), c[2])
         if c not in coords:
             coords.append(c)
     coords = coords[:max(2, size)]
@@ -590,9 +596,11 @@ def special_triples(cfg):
     if k == 'file':
         if lay == 'tc':
             t = [[(999, 0, 0), (1000, 0, 0), (0, 1000, 0)], [(1000000, 1, 1), (1, 1000000, 1), (1000, 1000, 1)],
-                 [(0, 0, 0), (0, 0, 1), (0, 0, 10)]]
+                 [(0, 0, 0), (0, 0, 1), (0, 0, 10)], [(0, 0, 2), (1000000, 0, 2), (0, 1000000, 2)],
+                 [(9999999, 5, 3), (10999999, 5, 3), (19999999, 5, 3)]]
         elif lay == 'mp':
-            t = [[(9999, 0, 0), (10000, 0, 0), (0, 10000, 0)], [(12345678, 1, 2), (1234, 5678, 2), (5678, 1234, 2)]]
+            t = [[(9999, 0, 0), (10000, 0, 0), (0, 10000, 0)], [(12345678, 1, 2), (1234, 5678, 2), (5678, 1234, 2)],
+                 [(0, 0, 1), (10000, 0, 1), (100000000, 0, 1)]]
         elif lay in ('tms', 'reverse_tms'):
             t = [[(1, 2, 3), (3, 2, 1), (2, 1, 3)], [(0, 0, 0), (0, 0, 1), (1, 0, 0)], [(11, 1, 1), (1, 11, 1), (1, 1, 11)]]
         elif lay == 'quadkey':
